@@ -107,7 +107,8 @@ type xreq struct {
 	rhLog    []string
 	bhLog    []string
 	outLog   []string
-	bhScript string // outcome of the next block-hook calls: set by the genuine response that carries blocks
+	lateLog  []string // response-hook calls / updates for peers other than p after the request has ended
+	bhScript string   // outcome of the next block-hook calls: set by the genuine response that carries blocks
 	bhFired  bool
 	progSig  chan struct{}
 }
@@ -162,7 +163,11 @@ func (ph *xPeerHandler) AllocateAndBuildMessage(p peer.ID, blkSize uint64, fn fu
 		}
 		if x := ph.w.req(reqNum(rq.ID())); x != nil {
 			x.mu.Lock()
-			x.outLog = append(x.outLog, fmt.Sprintf("%d.%s", peerNum(p), k))
+			if peerNum(p) != x.p && k == "u" && isClosed(x) {
+				x.lateLog = append(x.lateLog, fmt.Sprintf("out:%d.u", peerNum(p)))
+			} else {
+				x.outLog = append(x.outLog, fmt.Sprintf("%d.%s", peerNum(p), k))
+			}
 			x.mu.Unlock()
 		}
 	}
@@ -201,7 +206,11 @@ func newXWorld() *xworld {
 		w.mu.Unlock()
 		if x != nil {
 			x.mu.Lock()
-			x.rhLog = append(x.rhLog, fmt.Sprintf("%d.%d", pn, int(rd.Status())))
+			if pn != x.p && isClosed(x) {
+				x.lateLog = append(x.lateLog, fmt.Sprintf("hook:%d.%d", pn, int(rd.Status())))
+			} else {
+				x.rhLog = append(x.rhLog, fmt.Sprintf("%d.%d", pn, int(rd.Status())))
+			}
 			x.mu.Unlock()
 		}
 		if strings.Contains(sc, "x") {
@@ -475,6 +484,12 @@ func (w *xworld) doX(op []string) bool {
 	return false
 }
 
+func (w *xworld) late(x *xreq) []string {
+	x.mu.Lock()
+	defer x.mu.Unlock()
+	return append([]string{}, x.lateLog...)
+}
+
 func (w *xworld) summary(x *xreq) string {
 	x.mu.Lock()
 	defer x.mu.Unlock()
@@ -488,7 +503,8 @@ func (w *xworld) summary(x *xreq) string {
 
 // runX: executes the history, then cancels whatever is still live and waits for it to close.
 // Returns per-request summaries, the conn-manager log and what (if anything) the run got stuck on.
-func runX(ops [][]string) (lines []string, sums map[int]string, cm string, stuck string) {
+func runX(ops [][]string) (lines []string, sums map[int]string, cm string, stuck string, late map[int][]string) {
+	late = map[int][]string{}
 	w := newXWorld()
 	defer w.close()
 	for _, op := range ops {
@@ -517,18 +533,19 @@ func runX(ops [][]string) (lines []string, sums map[int]string, cm string, stuck
 			w.waitFor("final cancel of request "+strconv.Itoa(r), func() bool { return isClosed(x) })
 		}
 		sums[r] = w.summary(x)
+		late[r] = w.late(x)
 	}
 	w.barrier()
 	w.mu.Lock()
 	cm = strings.Join(w.cmLog, ",")
 	w.mu.Unlock()
-	return lines, sums, cm, w.stuck
+	return lines, sums, cm, w.stuck, late
 }
 
 func RunX(cases []reg.Case, out *reg.Out) {
 	for _, c := range cases {
 		out.BeginCase(c)
-		lines, sums, cm, stuck := runX(c.Ops)
+		lines, sums, cm, stuck, late := runX(c.Ops)
 		for i, l := range lines {
 			out.Cov("op." + c.Ops[i][0])
 			out.Line("%s", l)
@@ -571,13 +588,19 @@ func RunX(cases []reg.Case, out *reg.Out) {
 			}
 			ops2 = append(ops2, op)
 		}
+		for r, l := range late {
+			if len(l) > 0 {
+				out.Cov("foreign.after-end.hook")
+				out.Fail("hook-after-request-ended", "request %d (sent to peer %d) had already ended; responses from other peers carrying its ID still reach the response hook: %v", r, owner[r], l)
+			}
+		}
 		if stuck != "" {
 			out.Fail("c09-effect", "run with third-peer responses got stuck waiting for %s (requests: %v)", stuck, sums)
 		}
 		if nForeign == 0 {
 			continue
 		}
-		_, ref, cm2, stuck2 := runX(ops2)
+		_, ref, cm2, stuck2, _ := runX(ops2)
 		out.Cov("oracle.differential-runs")
 		if stuck2 != "" {
 			out.Fail("harness-expectation", "the honest history itself got stuck waiting for %s: the case's expectations are wrong", stuck2)
